@@ -149,7 +149,21 @@ func (c *Conn) Subprotocol() string {
 }
 
 func (c *Conn) close() error {
-	c.closeMu.Lock()
+	return c.closeWith(false)
+}
+
+// closeWith closes the connection. readLocked tells that the caller holds readMu
+// (the read loop closing the connection after a close frame): the closed flag is then
+// raised before readMu is released, so whoever acquires readMu next sees the connection closed.
+func (c *Conn) closeWith(readLocked bool) error {
+	if readLocked && !c.closeMu.TryLock() {
+		// Another goroutine is closing the connection and may be waiting for readMu.
+		c.readMu.unlock()
+		readLocked = false
+		c.closeMu.Lock()
+	} else if !readLocked {
+		c.closeMu.Lock()
+	}
 	defer c.closeMu.Unlock()
 	c.vEv("CloseEnter", 0, 0, 0, 0)
 
@@ -169,6 +183,9 @@ func (c *Conn) close() error {
 	c.vEv("RwcClosed", 0, 0, 0, 0)
 	// With the close of rwc, these become safe to close.
 	c.msgWriter.close()
+	if !readLocked {
+		c.readMu.forceLock()
+	}
 	c.msgReader.close()
 	c.vEv("CloseExit", 0, 0, 0, 0)
 	return err
